@@ -98,8 +98,13 @@ inductive Offence (ops : Ops DT Val) (c : ClassDesc DT Val) (cfg : Cfg Val) : Pr
   | unknownName (k : Name) : k ∈ cfg.map (·.1) → k ∉ knownNames c → Offence ops c cfg
   /-- module property value of the wrong type -/
   | badModProp (d : ModPropDesc Val) (v : Val) : d ∈ c.modProps →
-      (lookup d.name cfg = some (.prop (.bare v)) ∨ lookup d.name cfg = some (.prop (.dict (some v)))) →
+      (lookup d.name cfg = some (.prop (.bare v)) ∨ lookup d.name cfg = some (.prop (.dict (some v))) ∨
+        ∃ items, lookup d.name cfg = some (.acc items) ∧ lookup "value" items = some v) →
       d.validate v = none → Offence ops c cfg
+  /-- a module property given as a dict (`Param(value, key=…)`) with a key other than `value`: a property has no
+  properties, the key is an unknown property name -/
+  | propExtraKey (d : ModPropDesc Val) (items : List (Name × Val)) (k : Name) : d ∈ c.modProps →
+      lookup d.name cfg = some (.acc items) → k ∈ items.map (·.1) → k ≠ "value" → Offence ops c cfg
   /-- mandatory property missing -/
   | mandatory (d : ModPropDesc Val) : d ∈ c.modProps → d.mandatory = true → d.classValue = none →
       lookup d.name cfg = none → Offence ops c cfg
@@ -248,6 +253,8 @@ def offendingB (ops : Ops DT Val) (c : ClassDesc DT Val) (cfg : Cfg Val) : Bool 
     match lookup d.name cfg with
     | some (.prop (.bare v)) => (d.validate v).isNone
     | some (.prop (.dict (some v))) => (d.validate v).isNone
+    | some (.acc items) => (items.any fun kv => kv.1 != "value") ||
+        (match lookup "value" items with | some v => (d.validate v).isNone | none => false)
     | none => d.mandatory && d.classValue.isNone
     | _ => false) ||
   (c.params.any fun pd =>
